@@ -333,7 +333,8 @@ def run_case(case: dict[str, Any]) -> dict[str, Any]:
                 continue
             if any(to and t - 1e-9 <= tt <= t + 0.5 for tt, to in toggles) or (fatal_t is not None and t >= fatal_t - 1e-9):
                 continue
-            if s.closed_at is not None and t > s.closed_at - 5.0 and (s.plural, s.ns) not in expected_pairs(s.closed_at + 0.01):
+            t_term = next((tc for tc in sorted(x[0] for x in ns_events + crd_events) if tc >= t - 1e-9 and (s.plural, s.ns) not in expected_pairs(tc + 0.001)), None)
+            if t_term is not None and t > t_term - 5.0:
                 continue       # the pair ceased to be served (namespace/CRD gone): its watcher is terminated, its workers are drained for 2 s only
             cov['delivered_events'] += 1
             if (uid, str(rv), typ) not in seen:
